@@ -24,6 +24,7 @@ def data(cplx=True, n=None, phase=True, label='x', second=False):
     r = Num(d, (n if n is not None else N_SYM,), cplx, taint=frozenset([label]))
     from .charge import lin
     r.q = lin(1, Aff(0)) if cplx else Aff(0)
+    r.intdt = not cplx          # the real-data context includes integer-typed records (PCM samples, counts)
     return r
 
 
@@ -35,12 +36,14 @@ def sampling():
     return r
 
 
-def nfft(parity=None, sym='m'):
-    """NFFT as a symbolic integer 2m / 2m+1 (or an unconstrained symbol), carrying nfft^1 when used as a number"""
+def nfft(parity=None, sym='m', half=None):
+    """NFFT as a symbolic integer 2m / 2m+1 (or an unconstrained symbol), carrying nfft^1 when used as a number;
+    `half` replaces m by another affine form (2j / 2j+1: contexts in which the parity of m itself is known)"""
+    hm = half if half is not None else Aff.sym(sym)
     if parity == 'even':
-        a = Aff.sym(sym).scale(2)
+        a = hm.scale(2)
     elif parity == 'odd':
-        a = Aff.sym(sym).scale(2) + 1
+        a = hm.scale(2) + 1
     else:
         a = Aff.sym('NFFT')
         Aff.SYM_MIN['NFFT'] = 8
